@@ -120,6 +120,7 @@ def run_instance(spec):
         "obligations": 0, "discharged": 0, "syntactic": 0, "undecided": [], "cex": [],
         "unsupported": [], "functions": [], "samples": [], "exhaustive": True,
         "reach": 0, "notes": [], "distinct_prefixes": 0, "assumption_count": 0,
+        "xcheck": {"budget": int(limits.get("xcheck", 0)), "tried": 0, "agree": 0, "unknown": 0, "disagree": []},
     }
     prefix, done, check_last = [], [], False
     funcs = set()
@@ -217,6 +218,56 @@ def run_instance(spec):
     return res
 
 
+_CVC5_SCRIPT = r"""
+import sys, cvc5
+txt = open(sys.argv[1]).read()
+slv = cvc5.Solver()
+slv.setOption("tlimit-per", sys.argv[2])
+try:
+    slv.setOption("nl-cov", "true")
+except Exception:
+    pass
+slv.setLogic("ALL")
+p = cvc5.InputParser(slv)
+p.setStringInput(cvc5.InputLanguage.SMT_LIB_2_6, txt, "symx")
+sm = p.getSymbolManager()
+res = "unknown"
+while True:
+    cmd = p.nextCommand()
+    if cmd.isNull():
+        break
+    out = cmd.invoke(slv, sm).strip()
+    if out in ("sat", "unsat"):
+        res = out
+print("CVC5-VERDICT", res)
+"""
+
+
+def cvc5_verdict(smt2_text, ms=3000):
+    """second opinion on one query by cvc5 (Python wheel) in a sub-process with a hard timeout:
+    'sat' / 'unsat' / 'unknown' (timeouts and parse problems are not verdicts)"""
+    import subprocess
+    import tempfile
+
+    try:
+        with tempfile.NamedTemporaryFile("w", suffix=".smt2", delete=False) as f:
+            f.write(smt2_text)
+            path = f.name
+        try:
+            p = subprocess.run([sys.executable, "-c", _CVC5_SCRIPT, path, str(ms)], capture_output=True, text=True,
+                               timeout=ms / 1000.0 + 6)
+        finally:
+            os.remove(path)
+        for line in p.stdout.splitlines():
+            if line.startswith("CVC5-VERDICT "):
+                return line.split()[1]
+        return "error"
+    except subprocess.TimeoutExpired:
+        return "unknown"
+    except Exception as e:
+        return "error: %s" % (str(e)[:80],)
+
+
 def _pfx(ctx):
     return "".join("T" if b else "F" for b in ctx.prefix)
 
@@ -261,6 +312,17 @@ def _decide_path(ctx, ob, res, seen_cex):
             m = s.model() if r == "sat" else None
         if r == "unsat":
             res["discharged"] += 1
+            xc = res.setdefault("xcheck", {"budget": 0, "tried": 0, "agree": 0, "unknown": 0, "disagree": []})
+            if xc["budget"] > xc["tried"] and s is not None:
+                # second solver on the very same query (thorough tier): a `sat` from cvc5 is a disagreement
+                xc["tried"] += 1
+                v = cvc5_verdict(s.to_smt2())
+                if v == "unsat":
+                    xc["agree"] += 1
+                elif v == "sat":
+                    xc["disagree"].append({"name": name, "prefix": _pfx(ctx)})
+                else:
+                    xc["unknown"] += 1
             if len(res["samples"]) < 3 and kind in ("eq", "true", "eqtol"):
                 txt = str(g)
                 res["samples"].append({"obligation": name, "path": _pfx(ctx), "verdict": "unsat",
